@@ -7,14 +7,16 @@ From Refinery Require Gen.GenC11.
 From Coq Require Import Permutation.
 
 (* the translator found the constructs the model follows (delimiters, cap logic, type switch,
-   root "%v,", span count, both sorts, and the floor/keep shape in all five samplers) *)
+   root fields rendered like per-span values, whole floats as integers, span count, both sorts,
+   and the floor/keep shape in all five samplers) *)
 Theorem C11_source_shape :
   GenC11.key_delims = [GenC11.gen_bs [226; 128; 162]%N; ","%string] /\
   GenC11.root_prefix = "root."%string /\
   GenC11.cap_breaks_outer = true /\ GenC11.cap_counts_before_store = true /\
   GenC11.cap_is_max_key_length = true /\
   GenC11.add_switch = [["string"]; ["int"]; ["int64"]; ["float64"]; ["bool"]; ["nil"]; ["default"]]%string /\
-  GenC11.root_uses_percent_v = true /\ GenC11.len_is_span_count = true /\
+  GenC11.root_uses_same_rendering = true /\ GenC11.float_whole_as_int = true /\
+  GenC11.add_uses_append_value = true /\ GenC11.len_is_span_count = true /\
   GenC11.fields_sorted = true /\ GenC11.values_sorted = true /\
   GenC11.shape_dynamic = true /\ GenC11.shape_emadynamic = true /\ GenC11.shape_emathroughput = true /\
   GenC11.shape_windowedthroughput = true /\ GenC11.shape_totalthroughput = true.
@@ -74,6 +76,18 @@ Theorem C11_distinct_sets_distinct_keys : forall fields uselen t t' f x,
 Proof. exact build_distinct_sets_distinct_keys. Qed.
 Print Assumptions C11_distinct_sets_distinct_keys.
 
+(* … and the same for the root.-prefixed fields: with both root spans carrying every root field
+   and values free of ',', equal keys force equal root values *)
+Theorem C11_key_separates_root : forall fields uselen uselen' t t' rs rs',
+  let nf := fst (prepare fields) in let rf := snd (prepare fields) in
+  (total_distinct nf t < MAXK)%N -> (total_distinct nf t' < MAXK)%N ->
+  all_present nf t -> all_present nf t' -> all_dfree nf t -> all_dfree nf t' ->
+  t_root t = Some rs -> t_root t' = Some rs' -> root_ok rf rs -> root_ok rf rs' ->
+  fst (build fields uselen t) = fst (build fields uselen' t') ->
+  forall f, In f rf -> option_map render_root (sp_get f rs) = option_map render_root (sp_get f rs').
+Proof. exact build_separates_root_fixed. Qed.
+Print Assumptions C11_key_separates_root.
+
 (* The pinned tree started the de-dup with prevStr = "": value sets {"", "a"} and {"a"} collide.
    (Finding C11-empty-string-swallowed; fixed in the repository, the fixed builder separates them.) *)
 Theorem C11_legacy_prevstr_refuted :
@@ -102,7 +116,7 @@ Print Assumptions C11_keep_one_draw_in_rate.
    and the empty-string pair now separated. *)
 Example C11_nonvacuous :
   let sp1 : span := [(u "http.status_code", VInt 200); (u "request.path", VStr (u "/{slug}/home"));
-                     (u "app.team.id", VOracle (u "2") (u "2")); (u "important_field", VBool true)] in
+                     (u "app.team.id", VFloat false 2 0 (u "2")); (u "important_field", VBool true)] in
   let t := {| t_spans := [sp1]; t_root := None |} in
   let fields := [u "http.status_code"; u "request.path"; u "app.team.id"; u "important_field"] in
   build fields true t =
